@@ -272,7 +272,7 @@ func (fr *Frame) execInstr(in ssa.Instruction) bool {
 	case *ssa.MakeSlice:
 		ln := e.toBV64(fr.val(x.Len))
 		cp := e.toBV64(fr.val(x.Cap))
-		e.check("makelen", fr.anchor(in), fr.pc, mkAnd(app("bvsle", bvLitI(64, 0), ln), app("bvsle", ln, cp), app("bvsle", cp, bvLitI(64, 1<<40))), pos, "make: negative or oversized length")
+		e.check("makelen", fr.anchor(in), fr.pc, mkAnd(app("bvsle", bvLitI(64, 0), ln), app("bvsle", ln, cp), app("bvsle", cp, bvLitI(64, 1<<42))), pos, "make: negative or oversized length")
 		el := x.Type().Underlying().(*types.Slice).Elem()
 		r := e.newRef(fr.st, x.Name())
 		e.zeroElems(fr.st, r, el)
@@ -422,8 +422,9 @@ func (fr *Frame) execUnOp(x *ssa.UnOp) {
 		var r Val
 		if v.A != nil {
 			r = e.loadAddr(fr.st, v.A)
-			if v.A.Kind != aElem || true {
-				r.NN = !e.L.isNullableAddr(v.A)
+			r.NN = !e.L.isNullableAddr(v.A)
+			if v.A.Kind == aElem {
+				r.NN = false // elements of slices/arrays of pointers may be nil
 			}
 		} else {
 			fr.nilCheck(x, v, "load")
@@ -434,7 +435,8 @@ func (fr *Frame) execUnOp(x *ssa.UnOp) {
 			}
 		}
 		if _, isIface := T.Underlying().(*types.Interface); isIface {
-			r.NN = false
+			// A2 covers interface-typed struct fields too (not locals, elements or globals)
+			r.NN = v.A != nil && v.A.Kind == aField && !e.L.isNullableAddr(v.A)
 		}
 		if _, isPtr := T.Underlying().(*types.Pointer); isPtr && r.S != "" {
 			e.assume(mkImp(fr.pc, app("<=", r.S, fr.st.alloc)))
@@ -826,8 +828,13 @@ func (fr *Frame) execTypeAssert(x *ssa.TypeAssert) {
 		}
 		r2 := unflatten(T, &terms)
 		r2.Dyn, r2.DynV = res.Dyn, res.DynV
+		// A2: a pointer obtained from a successful comma-ok assertion is taken to be non-nil
+		// (interfaces are assumed not to hold typed nil pointers)
+		if _, isPtr := T.Underlying().(*types.Pointer); isPtr {
+			r2.NN = true
+		}
 		if ok == "true" {
-			r2.NN = res.NN
+			r2.NN = res.NN || r2.NN
 		}
 		tv.F = []Val{r2, {T: tBool, S: ok}}
 		fr.vals[x] = tv
